@@ -19,6 +19,8 @@ func plainJSON(v any, depth int) bool {
 		return true
 	case float64:
 		return x == x && x-x == 0 // finite: NaN and infinities cannot be serialised
+	case float32:
+		return x == x && x-x == 0
 	case decimal128.Decimal:
 		return !x.IsNaN() && !x.IsInf(0)
 	case []any:
@@ -93,4 +95,36 @@ func H_C18_compose() {
 	} else {
 		vrtAssert(refEqual(r2, whole), "re-querying the result differs from the pipe")
 	}
+}
+
+// H_C18_floats: natively built documents with binary floating-point leaves at
+// the edges of their range: whatever arithmetic is done on them, a successful
+// result is finite (an overflow or an invalid operation is an error, never an
+// infinity or NaN handed back as a value).
+var c18F64 = []float64{0, 1, -1, 0.5, 3, 1e308, -1e308, 1.7976931348623157e308, 1e-308, 5e-324, 9007199254740992, 1e200, -1e-200}
+var c18F32 = []float32{0, 1, -1, 0.5, 3, 3e38, -3e38, 3.4028234e38, 1e-38, 1e-45, 16777216, 1e30, -1e-30}
+
+var c18FloatExprs = []string{
+	"a + b", "a - b", "a * b", "a / b", "a // b", "a % b", "-a", "abs(a)", "sum([a, b])", "avg([a, b])", "max([a, b])", "min([a, b])",
+	"ceil(a)", "floor(a)", "a * a", "a / b / b", "a * b * b", "[a / b]", "{x: a * b}", "sum([a, a, b, b])", "a + a", "a - b - b", "to_number(to_string(a))",
+}
+
+func H_C18_floats() {
+	i := vrtChoose("a", len(c18F64))
+	j := vrtChoose("b", len(c18F64))
+	var doc any
+	if vrtBool("f32") {
+		doc = map[string]any{"a": c18F32[i], "b": c18F32[j]}
+	} else {
+		doc = map[string]any{"a": c18F64[i], "b": c18F64[j]}
+	}
+	expr := c18FloatExprs[vrtChoose("expr", len(c18FloatExprs))]
+	vrtNote("template:" + expr)
+	got, err := Search(expr, doc)
+	if err != nil {
+		vrtReach("error")
+		return
+	}
+	vrtAssert(plainJSON(got, 0), "result contains a value that is not a plain JSON value")
+	vrtReach("ok")
 }
